@@ -16,6 +16,8 @@ SPEC = {"module": "models.ormmodel", "profile": "handwritten", "order": [], "cla
     {"name": "ShapeBase", "parent": None, "fields": [f("uid", "int"), f("name", "str"), f("turn", "int"), f("ports", "list_ref", "Port")]},
     {"name": "Circle", "parent": "ShapeBase", "fields": [f("r", "float"), f("center", "opt_ref", "Vec")]},
     {"name": "Ring", "parent": "Circle", "fields": [f("thick", "float")]},
+    {"name": "Square", "parent": "ShapeBase", "fields": [f("side", "int")]},
+    {"name": "Tile", "parent": "Square", "fields": [f("glaze", "str")]},
     {"name": "Stamp", "parent": None, "fields": [f("uid", "int"), f("where", "opt_ref", "Vec"), f("marks", "list_ref", "Port"), f("text", "str")]},
     {"name": "Sheet", "parent": None, "fields": [f("uid", "int"), f("shapes", "list_ref", "ShapeBase"), f("stamp", "opt_ref", "Stamp")]},
 ]}
